@@ -11,11 +11,13 @@ mod eng_addr;
 mod eng_codec;
 mod eng_mach;
 mod eng_map;
+mod eng_rec;
 mod eng_pte;
 mod eng_tbl;
 mod gen_addr;
 mod gen_mach;
 mod gen_map;
+mod gen_rec;
 mod gen_tbl;
 mod physmem;
 mod softcpu;
@@ -46,6 +48,7 @@ fn main() {
                 "codec" => eng_codec::run,
                 "map" => eng_map::run,
                 "tree" => eng_map::run_projected,
+                "rec" => eng_rec::run,
                 _ => panic!("unknown engine"),
             };
             for_each_line(|l| fmt_out(&f(&parse_line(l))));
@@ -62,6 +65,7 @@ fn main() {
                 "C08" | "C12" | "C14" | "C15" | "C19" => gen_tbl::gen(prop, seed, thorough, &mut out),
                 "C11" | "C16" | "C17" | "C18" => gen_mach::gen(prop, seed, thorough, &mut out),
                 "C01" | "C02" | "C09" | "C10" => gen_map::gen(prop, seed, thorough, &mut out),
+                "C20" => gen_rec::gen(seed, thorough, &mut out),
                 _ => panic!("unknown property"),
             }
         }
@@ -73,6 +77,7 @@ fn main() {
                 "C11" | "C16" | "C17" | "C18" => gen_mach::oracle(prop),
                 "C01" | "C02" | "C09" | "C10" => gen_map::oracle(prop),
                 "C11T" => gen_map::oracle("C11"),
+                "C20" => gen_rec::oracle(),
                 _ => panic!("unknown property"),
             }
         }
